@@ -24,7 +24,7 @@ PROP = "C09"
 def run(ctx):
     repo = ctx.repo
     res = Result(PROP)
-    res.rules = ["K1", "K2", "K5", "K-CANON", "K-ZIP", "M-MAP", "K3(info)"]
+    res.rules = ["K1", "K2", "K5", "K-CANON", "K-ZIP", "K-FACEID", "M-MAP", "K3(info)"]
     res.explanation = (
         "Abstract interpretation of every function of the structural-measure modules over ID / position kinds and the "
         "container shapes built from them (sa/kinds.py): each subscript is checked for a label used as a position or a "
@@ -47,6 +47,12 @@ def run(ctx):
                 c12_matrices.check_map(repo, eng, res, fn, prop=PROP)
         res.floor("matrix builders with an index option", n, 11)
         check_zip_order(repo, res, fns)
+        from .common import pattern_lint, raw_tuple_dedupe_sites
+
+        pattern_lint(res, PROP, "K-FACEID", fns, raw_tuple_dedupe_sites,
+                     "def _faces(members):\n    return {c for c in combinations(members, 2)}\n",
+                     lambda nd: f"`{unparse(nd, 60)}` uses the tuples produced by a combinations-style enumeration as identities (set elements / dict keys) without making them canonical (frozenset, or sorted); when the enumerated members come from a set, the order inside a tuple is the hash order, so the same face reached twice can appear as (a, b) and (b, a) and is counted or kept twice - the result then depends on labels and insertion order",
+                     "raw combination tuples used as identities")
     return res
 
 
